@@ -44,7 +44,60 @@ def run(p: Project, tier: str) -> Result:
         check_routing(p, w, r)
         check_wiring(p, w, r)
     check_generators(p, r)
+    check_consult_sites(p, r)
     return r
+
+
+CONSUMERS = {'next', 'list', 'tuple', 'sorted', 'sum', 'any', 'all', 'min', 'max', 'zip', 'enumerate', 'set', 'iter', 'islice'}
+SELECTORS = {'_get_in_edge_index': 'in_edge_selection', '_get_out_edge_index': 'out_edge_selection'}
+
+
+def check_consult_sites(p, r):
+    """R8 who-may-consult: a user policy (callable or generator held in in/out_edge_selection) is consulted - called, advanced with next(), iterated or
+    handed to a consuming builtin - only inside the per-item selector functions.  A consultation anywhere else (constructor, reset, statistics) consumes an
+    answer that routes no item: the callable is then consulted more often than once per item and a generator's sequence is shifted."""
+    r.rule('C15.R8', 'the user policy is consulted only inside the per-item selector functions', 1)
+    raw = p.raw()
+    n_sites = 0
+    for ci in sorted(raw.classes.values(), key=lambda c: (c.module, c.name)):
+        if not ci.module.startswith('nodes/'):
+            continue
+        for fname, fi in sorted(ci.methods.items()):
+            alias = {}
+            for n in ast.walk(fi.node):
+                if isinstance(n, ast.Assign) and len(n.targets) == 1 and isinstance(n.targets[0], ast.Name) and self_attr(n.value) in SELECTORS.values():
+                    alias[n.targets[0].id] = self_attr(n.value)
+
+            def policy(x):
+                a = self_attr(x)
+                if a in SELECTORS.values():
+                    return a
+                if isinstance(x, ast.Name) and x.id in alias:
+                    return alias[x.id]
+                return None
+            for n in ast.walk(fi.node):
+                hit = how = None
+                if isinstance(n, ast.Call):
+                    if policy(n.func):
+                        hit, how = policy(n.func), 'called'
+                    elif isinstance(n.func, ast.Name) and n.func.id in CONSUMERS and n.args and policy(n.args[0]):
+                        hit, how = policy(n.args[0]), f'consumed by {n.func.id}()'
+                    elif isinstance(n.func, ast.Attribute) and n.func.attr in ('send', '__next__', '__call__') and policy(n.func.value):
+                        hit, how = policy(n.func.value), f'advanced with .{n.func.attr}()'
+                elif isinstance(n, (ast.For, ast.comprehension)) and policy(n.iter):
+                    hit, how = policy(n.iter), 'iterated'
+                if not hit:
+                    continue
+                n_sites += 1
+                key = f'{fi.key}::consults({hit})'
+                if SELECTORS.get(fname) == hit:
+                    r.ok('C15.R8', key, f'policy {how} inside its per-item selector', src(fi.module), n.lineno)
+                else:
+                    r.fail('C15.R8', key, f'`self.{hit}` is {how} in {fi.cls}.{fname}, outside the per-item selector '
+                                          f'`{[k for k, v in SELECTORS.items() if v == hit][0]}`: the policy is consulted more often than once per routed item '
+                                          f'(a generator policy loses an answer, a callable is called for nothing)', src(fi.module), n.lineno)
+    if n_sites < 4:
+        raise AnalysisError(f'C15.R8: only {n_sites} consultation sites of the edge-selection policies found (expected the selector functions of four node classes)')
 
 
 # ------------------------------------------------------------------------------------------- selectors
